@@ -203,8 +203,12 @@ pub fn case_strategy(max_len: usize, profile: Profile) -> BoxedStrategy<Case> {
     }
     // restricted profiles run in en/en (see DESIGN.md: listed findings on re-parsing of formulas
     // typed with English names/separators under another language or locale)
-    history_strategy(max_len, profile)
-        .prop_map(move |ops| Case { locale: "en".into(), language: "en".into(), profile, ops })
+    (any::<bool>(), history_strategy(max_len, profile))
+        .prop_map(move |(rich, ops)| {
+            let mut all = if rich { ops::rich_setup(profile) } else { vec![] };
+            all.extend(ops);
+            Case { locale: "en".into(), language: "en".into(), profile, ops: all }
+        })
         .boxed()
 }
 
